@@ -148,11 +148,15 @@ func init() {
 			closIn{Strict: false, Certs: two, Set: false, Issuer: "none", Reqs: []string{"example.com"}},
 		},
 		Gen: func(r *hx.Rand, i int) interface{} {
-			in := closIn{Strict: r.Chance(2, 3), Set: !r.Chance(1, 8), Issuer: []string{"none", "ok", "ok", "fail"}[r.Intn(4)], Certs: []selCert{}}
-			for n := r.Intn(nKeys + 1); n > 0; n-- {
+			in := closIn{Strict: r.Chance(2, 3), Set: !r.Chance(1, 12), Issuer: []string{"none", "ok", "ok", "fail"}[r.Intn(4)], Certs: []selCert{}}
+			n := r.Range(2, nKeys)
+			if r.Chance(1, 6) {
+				n = r.Intn(2)
+			}
+			for ; n > 0; n-- {
 				in.Certs = append(in.Certs, genSelCert(r))
 			}
-			for n := r.Range(2, 6); n > 0; n-- {
+			for n := r.Range(3, 6); n > 0; n-- {
 				in.Reqs = append(in.Reqs, genReqName(r))
 			}
 			var names []string
